@@ -754,10 +754,15 @@ func ruleC06(w *World) {
 			if !ok {
 				return
 			}
-			if b, ok := cc.Call.Value.(*ssa.Builtin); !ok || b.Name() != "append" {
+			b, ok := cc.Call.Value.(*ssa.Builtin)
+			if !ok || (b.Name() != "append" && b.Name() != "copy") || len(cc.Call.Args) != 2 {
 				return
 			}
-			if !flowsTo(cc, buf) {
+			if b.Name() == "append" && !flowsTo(cc, buf) {
+				return
+			}
+			// copy(buf[k·48:(k+1)·48], share): the same bytes entering the same buffer
+			if b.Name() == "copy" && sliceBase(cc.Call.Args[0]) != buf {
 				return
 			}
 			napp++
